@@ -987,6 +987,7 @@ class Bada3FuelBurnModel(BaseFuelBurnModel):
                 )
             )
 
+            mass[1:] += initial_mass - mass[0]
             mass[0] = initial_mass
 
             final_mass_pct_change = (
@@ -1105,6 +1106,7 @@ class Bada3FuelBurnModel(BaseFuelBurnModel):
                 )
             )
 
+            mass[1:] += initial_mass - mass[0]
             mass[0] = initial_mass
 
             final_mass_pct_change = (
